@@ -5,9 +5,9 @@
 (* adapter contract "declared namespaces only" + the store's inheritance     *)
 (* realise the in-scope semantics), and emits the complete documents.        *)
 (***************************************************************************)
-EXTENDS XmlAdapter, Json, TLC
+EXTENDS XmlAdapter, Json, TLC, FiniteSets
 
-CONSTANTS MaxItems, EmitOn, FullProduct
+CONSTANTS MaxItems, EmitOn, FullProduct, ItemPool   \* ItemPool: "all" | "starts" (only start and end tags: deeper nesting)
 U1 == <<"u", "1">>
 U2 == <<"u", "2">>
 P == <<"p">>
@@ -17,13 +17,15 @@ DeclSets == {<<>>, <<B(P, U1)>>, <<B(<<>>, U1)>>, <<B(<<>>, <<>>)>>, <<B(P, U2)>
 AttrSets == {<<>>, <<[pre |-> <<>>, lo |-> <<"x">>, v |-> <<"1">>]>>, <<[pre |-> P, lo |-> <<"x">>, v |-> <<"a", "sp", "<">>], [pre |-> <<>>, lo |-> <<"y">>, v |-> <<>>]>>}
 CharItems == {[k |-> "chars", v |-> <<"t">>, how |-> "plain"], [k |-> "chars", v |-> <<"<", "c", "&">>, how |-> "cdata"],
               [k |-> "chars", v |-> <<"&", "w2">>, how |-> "ref"], [k |-> "chars", v |-> <<"sp", "nl">>, how |-> "plain"]}
-Others == {[k |-> "comment", v |-> <<"c">>], [k |-> "pi", lo |-> <<"t">>, v |-> <<"d">>]}
+Others == {[k |-> "comment", v |-> <<"c">>], [k |-> "pi", lo |-> <<"t">>, v |-> <<"d">>], [k |-> "pi", lo |-> <<"x","m","l","-","s">>, v |-> <<"h">>]}
 
 VARIABLES items, scopes, roots   \* items so far; stack of in-scope lists; number of top-level elements started
 vars == <<items, scopes, roots>>
 Init == items = <<>> /\ scopes = <<<<>>>> /\ roots = 0
 Depth == Len(scopes) - 1
-Room == Len(items) < MaxItems
+\* MaxItems bounds the items other than closing tags; closing tags are always allowed
+NonEnd == Cardinality({i \in 1..Len(items) : items[i].k # "end"})
+Room == NonEnd < MaxItems
 Start(q, ds, as) ==
   /\ Room /\ (Depth > 0 \/ roots = 0)
   /\ LET sc == ScopeAfter(scopes[Len(scopes)], ds) IN
@@ -31,7 +33,7 @@ Start(q, ds, as) ==
      /\ scopes' = Append(scopes, sc)
   /\ items' = Append(items, [k |-> "start", pre |-> q.pre, lo |-> q.lo, decls |-> ds, attrs |-> as])
   /\ roots' = IF Depth = 0 THEN roots + 1 ELSE roots
-End == /\ Depth > 0 /\ Len(items) < MaxItems + Depth      \* closing tags are always allowed
+End == /\ Depth > 0
        /\ items' = Append(items, [k |-> "end"]) /\ scopes' = SubSeq(scopes, 1, Len(scopes) - 1) /\ UNCHANGED roots
 Chars(c) == /\ Room /\ Depth > 0                        \* character data only inside the document element
             /\ items' = Append(items, c) /\ UNCHANGED <<scopes, roots>>
@@ -42,11 +44,13 @@ PA == [pre |-> P, lo |-> <<"a">>]
 QB == [pre |-> Q, lo |-> <<"b">>]
 X1 == <<[pre |-> <<>>, lo |-> <<"x">>, v |-> <<"1">>]>>
 PX == <<[pre |-> P, lo |-> <<"x">>, v |-> <<"a", "sp", "<">>], [pre |-> <<>>, lo |-> <<"y">>, v |-> <<>>]>>
-StartTags == IF FullProduct THEN {<<q, ds, as>> : q \in ElemQ, ds \in DeclSets, as \in AttrSets}
+StartTags == IF ItemPool = "starts" THEN   \* nesting chains: only what matters for namespace scoping
+               { <<A_, <<>>, <<>>>>, <<A_, <<B(<<>>, U1)>>, <<>>>>, <<A_, <<B(<<>>, <<>>)>>, <<>>>>, <<PA, <<B(P, U1)>>, <<>>>> }
+             ELSE IF FullProduct THEN {<<q, ds, as>> : q \in ElemQ, ds \in DeclSets, as \in AttrSets}
              ELSE { <<A_, <<>>, <<>>>>, <<A_, <<B(<<>>, U1)>>, X1>>, <<PA, <<B(P, U1)>>, PX>>, <<A_, <<B(<<>>, <<>>)>>, <<>>>>,
                     <<PA, <<B(P, U2)>>, <<>>>>, <<QB, <<B(Q, U1), B(<<>>, U2)>>, X1>>, <<A_, <<B(P, U1)>>, <<>>>>, <<PA, <<>>, X1>> }
 Next == \/ \E t \in StartTags : Start(t[1], t[2], t[3])
-        \/ End \/ \E c \in CharItems : Chars(c) \/ \E o \in Others : Other(o)
+        \/ End \/ (ItemPool = "all" /\ (\E c \in CharItems : Chars(c) \/ \E o \in Others : Other(o)))
 
 CompleteDoc == Depth = 0 /\ roots = 1
 \* the Store machine fed with the adapter's events builds the data model
